@@ -8,7 +8,7 @@ caches, restart = reload of the window from the store).  A history is any list o
 one block (`TxDistinct`).  Hash functions are arbitrary.
 -/
 namespace OntVerif.Props.C40
-open OntVerif.Model.BlockStore OntVerif.Proofs.BlockStore
+open OntVerif.Model.BlockStore OntVerif.Proofs.BlockStore OntVerif.Gen.LedgerQuery
 
 /-- **All five queries agree with the committed block, for every committed height, in every reachable state** — after any
 interleaving of commits and restarts, whether or not the height is still inside the header index window (the window only decides
@@ -35,21 +35,24 @@ theorem C40_evicted (P : Prims) (ops : List Op) (l : Ledger) (h : runOps P ops e
 
 /-- a restart of a ledger that holds at least one block of a chain always succeeds (every height of the reloaded window has a
 stored hash), so the hypothesis `runOps … = some l` of `C40_agree` is met by every history that starts with a commit -/
-theorem C40_history_runs (P : Prims) (ops : List Op) (b0 : Block) (g : Good P (committed (.commit b0 :: ops))) :
+theorem C40_history_runs (P : Prims) (ops : List Op) (b0 : Block) (g : Good P (committed (.commit b0 :: ops)))
+    (noSync : ∀ x, Op.syncHeader x ∉ ops) :
     ∃ l, runOps P (.commit b0 :: ops) emptyLedger = some l := by
-  have key : ∀ (ops : List Op) (bs : List Block) (l : Ledger), Inv P bs l → bs ≠ [] → Good P (bs ++ committed ops) →
-      ∃ l', runOps P ops l = some l' := by
+  have key : ∀ (ops : List Op) (bs : List Block) (l : Ledger), (∀ x, Op.syncHeader x ∉ ops) → Inv P bs l → bs ≠ [] →
+      Good P (bs ++ committed ops) → ∃ l', runOps P ops l = some l' := by
     intro ops
     induction ops with
-    | nil => intro bs l _ _ _; exact ⟨l, rfl⟩
+    | nil => intro bs l _ _ _ _; exact ⟨l, rfl⟩
     | cons op r ih =>
-      intro bs l inv ne g
+      intro bs l ns inv ne g
+      have nsr : ∀ x, Op.syncHeader x ∉ r := fun x hx => ns x (by simp [hx])
       cases op with
+      | syncHeader x => exact absurd (by simp) (ns x)
       | commit b =>
         have e : bs ++ committed (Op.commit b :: r) = (bs ++ [b]) ++ committed r := by simp [committed]
         rw [e] at g
         simp only [runOps, step]
-        exact ih _ _ (inv_commit P bs b l inv (good_prefix_append g)) (by simp) g
+        exact ih _ _ nsr (inv_commit P bs b l inv (good_prefix_append g)) (by simp) g
       | restart =>
         have e : bs ++ committed (Op.restart :: r) = bs ++ committed r := by simp [committed]
         rw [e] at g
@@ -57,10 +60,10 @@ theorem C40_history_runs (P : Prims) (ops : List Op) (b0 : Block) (g : Good P (c
         have tot := restart_total P bs l inv ne
         cases hr : restart l with
         | none => rw [hr] at tot; cases tot
-        | some l1 => exact ih _ _ (inv_restart P bs l l1 inv hr) ne g
+        | some l1 => exact ih _ _ nsr (inv_restart P bs l l1 inv hr) ne g
   simp only [runOps, step]
   have g1 : Good P ([] ++ [b0]) := good_prefix_append (ys := committed ops) (by simpa [committed] using g)
-  exact key ops [b0] _ (inv_commit P [] b0 emptyLedger (inv_empty P) g1) (by simp) (by simpa [committed] using g)
+  exact key ops [b0] _ noSync (inv_commit P [] b0 emptyLedger (inv_empty P) g1) (by simp) (by simpa [committed] using g)
 
 /-! ### what happens when a transaction hash repeats -/
 
@@ -114,9 +117,73 @@ theorem goodChain : Good demo [c0, c1, c2] := by
         | (exfalso; revert m m'; simp only [c0, c1, c2, List.mem_cons, List.mem_nil_iff, or_false]; intro m m'; first | (rcases m with rfl | rfl <;> simp at m') | (subst m; simp at m'))
 
 example : ∃ l, runOps demo [.commit c0, .commit c1, .restart, .commit c2] emptyLedger = some l :=
-  C40_history_runs demo _ c0 (by simpa [committed] using goodChain)
+  C40_history_runs demo _ c0 (by simpa [committed] using goodChain) (by simp)
 
 example : (runOps demo [.commit c0, .commit c1, .restart, .commit c2] emptyLedger).map (fun l => getBlockByHeight l 1) = some (some c1) := by
   decide
+
+/-! ### the exact window of the header index cache
+
+`HEADER_INDEX_MAX_SIZE`, the guard `first < curBlockHeight`, `cacheSize := curBlockHeight - first + 1`, the loop condition
+`cacheSize > MAX` and the reload start `cur - MAX + 1` are regenerated from the source (`Gen/LedgerQuery.lean`); the theorems are
+stated over those definitions.  `MAX` below is `OntVerif.Gen.LedgerQuery.headerIndexMaxSize`. -/
+
+/-- what a window `[lo, hiE)` means for the cache of ledger `l` -/
+def WindowIs (l : Ledger) (lo hiE : Nat) : Prop :=
+  l.cache.first = lo ∧ l.cache.last + 1 = hiE ∧ l.cache.idx.length + lo = hiE
+    ∧ ∀ k, (mapGet k l.cache.idx).isSome ↔ (lo ≤ k ∧ k < hiE)
+
+private theorem windowIs_of_lwin {l : Ledger} {lo hiE : Nat} (w : LWin l lo hiE) : WindowIs l lo hiE := by
+  have h1 := w.lo_le
+  have hlt : lo < hiE := by rcases w.hi with e | e <;> omega
+  exact ⟨w.win.first, w.win.last hlt, w.win.keys.len, w.win.keys.keys⟩
+
+/-- **General window theorem**: after any history that starts with the genesis commit, the cache holds exactly the heights
+`[lo, hiE)` that the arithmetic specification `specRun` predicts (commit at height h: `lo := max lo (h - MAX)`, top `h`;
+restart: `lo := loadStart cur`, top `cur`; header sync of height cur+1: `lo := max lo (cur+1 - MAX)`, top `cur+1`). -/
+theorem C40_window (P : Prims) (b0 : Block) (ops : List Op) (l : Ledger)
+    (h : runOps P (.commit b0 :: ops) emptyLedger = some l) (g : Good P (committed (.commit b0 :: ops))) :
+    ∃ lo hiE, specRun ops (0, 0, 1) = some (l.curHeight, lo, hiE) ∧ WindowIs l lo hiE := by
+  simp only [runOps, step] at h
+  have g' : Good P ([b0] ++ committed ops) := by simpa [committed] using g
+  have g1 : Good P ([] ++ [b0]) := good_prefix_append (ys := committed ops) g'
+  have h0 : b0.hdr.height = 0 := g1.heights 0 b0 rfl
+  have inv := inv_commit P [] b0 emptyLedger (inv_empty P) g1
+  obtain ⟨lo, hiE, h1, h2⟩ := window_runOps P ops [b0] _ l 0 1 inv (by simp) (lwin_genesis P b0 h0) h g'
+  have e : (commit P b0 emptyLedger).curHeight = 0 := by simp [commit, h0]
+  rw [e] at h1
+  exact ⟨lo, hiE, h1, windowIs_of_lwin h2⟩
+
+/-- **Live window** (no restart, no header ahead): after the genesis commit and `n` further commits the cache holds exactly the
+`MAX+1` newest heights `n-MAX … n` (all of `0 … n` while `n ≤ MAX`). -/
+theorem C40_window_live (P : Prims) (b0 : Block) (ops : List Op) (l : Ledger) (hc : ∀ op ∈ ops, Op.isCommit op = true)
+    (h : runOps P (.commit b0 :: ops) emptyLedger = some l) (g : Good P (committed (.commit b0 :: ops))) :
+    l.curHeight = ops.length ∧ WindowIs l (ops.length - headerIndexMaxSize) (ops.length + 1) := by
+  obtain ⟨lo, hiE, h1, h2⟩ := C40_window P b0 ops l h g
+  have := specRun_commits ops hc 0
+  simp only [Nat.zero_sub, Nat.zero_add] at this
+  rw [this] at h1
+  simp only [Option.some.injEq, Prod.mk.injEq] at h1
+  obtain ⟨e1, e2, e3⟩ := h1
+  rw [← e2, ← e3]
+  exact ⟨e1.symm, h2⟩
+
+/-- **Window after a restart**: exactly the `MAX` newest heights `cur-MAX+1 … cur` (all of `0 … cur` while `cur < MAX`) — one less
+than the live window. -/
+theorem C40_window_after_restart (P : Prims) (b0 : Block) (ops : List Op) (l : Ledger)
+    (h : runOps P (.commit b0 :: (ops ++ [.restart])) emptyLedger = some l) (g : Good P (committed (.commit b0 :: (ops ++ [.restart])))) :
+    WindowIs l (loadStart l.curHeight) (l.curHeight + 1) := by
+  obtain ⟨lo, hiE, h1, h2⟩ := C40_window P b0 _ l h g
+  rw [specRun_append] at h1
+  cases hs : specRun ops (0, 0, 1) with
+  | none => simp [hs] at h1
+  | some st =>
+    obtain ⟨cur, lo0, hi0⟩ := st
+    simp only [hs, specRun, specStep, Option.some.injEq, Prod.mk.injEq] at h1
+    obtain ⟨e1, e2, e3⟩ := h1
+    rw [← e1, e2, e1, e3]
+    rw [← e1] at h2 ⊢
+    rw [e1]
+    exact e1 ▸ h2
 
 end OntVerif.Props.C40
